@@ -10,6 +10,7 @@ import (
 	"fmt"
 	"strings"
 	"time"
+	"unicode/utf8"
 
 	"github.com/lidofinance/dc4bc/fsm/state_machines/signing_proposal_fsm"
 
@@ -93,14 +94,31 @@ func shortID(id string) string {
 	return id
 }
 
+// fileNamePart makes an identifier usable inside a file name: identifiers come from the append-only log
+// and may contain path separators, control characters or be arbitrarily long.
+func fileNamePart(s string, maxLen int) string {
+	var b strings.Builder
+	for _, r := range s {
+		if b.Len() >= maxLen {
+			break
+		}
+		if r == '/' || r == '\\' || r < 0x20 || r == 0x7f || r == utf8.RuneError {
+			b.WriteByte('_')
+			continue
+		}
+		b.WriteRune(r)
+	}
+	return b.String()
+}
+
 func (o *Operation) Filename() (filename string) {
-	filename = fmt.Sprintf("dkg_id_%s", shortID(o.DKGIdentifier))
+	filename = fmt.Sprintf("dkg_id_%s", fileNamePart(shortID(o.DKGIdentifier), 16))
 
 	if o.IsSigningState() {
 		var payload responses.SigningPartialSignsParticipantInvitationsResponse
 
 		if err := json.Unmarshal(o.Payload, &payload); err == nil {
-			filename = fmt.Sprintf("%s_signing_id_%s", filename, payload.BatchID)
+			filename = fmt.Sprintf("%s_signing_id_%s", filename, fileNamePart(payload.BatchID, 64))
 		}
 	}
 
@@ -109,7 +127,7 @@ func (o *Operation) Filename() (filename string) {
 		filename,
 		getStepNumber(o.Type),
 		getShortOperationDescription(o.Type),
-		shortID(o.ID),
+		fileNamePart(shortID(o.ID), 16),
 	)
 }
 
